@@ -619,3 +619,84 @@ def c18(pid, tier, replay):
 
 
 REGISTRY["C18"] = c18
+
+
+def watcher_scenarios(seed, tier):
+    import random
+    rng = random.Random(seed * 167 + 3)
+    dirs = ["hidi-config/factory/gamepad/", "hidi-config/factory/keyboard/", "hidi-config/user/gamepad/", "hidi-config/user/keyboard/"]
+    toml = ["a.toml", "b.toml", "c.toml", "UPPER.TOML", "with space.toml"]
+    other = ["notes.txt", "a.toml.bak", "README", "atoml", "x.tom", "a.toml~", ".toml.swp"]
+    scs = []
+    def add(ops):
+        scs.append({"id": len(scs) + 1, "ops": ops})
+    W = lambda f: {"op": "write", "file": f}
+    add([W(dirs[3] + "a.toml")])
+    add([W(d + "a.toml") for d in dirs])
+    add([W(dirs[0] + n) for n in other])
+    add([W(dirs[2] + "a.toml")] * 5)                                  # burst on one file
+    add([{"op": "pause"}] + [W(dirs[i % 4] + toml[i % 5]) for i in range(12)] + [{"op": "resume"}])
+    add([W(dirs[0] + "a.toml"), {"op": "cancel"}, W(dirs[0] + "b.toml")])
+    add([{"op": "pause"}, W(dirs[0] + "a.toml"), W(dirs[1] + "b.toml"), {"op": "cancel"}])
+    add([{"op": "cancel"}])
+    add([W(dirs[1] + "nested/a.toml"), W(dirs[1] + "b.toml")])
+    n = 25 if tier == "quick" else 400
+    for _ in range(n):
+        ops = []
+        paused = False
+        for _ in range(rng.randrange(1, 25)):
+            r = rng.random()
+            if r < 0.55:
+                ops.append(W(rng.choice(dirs) + rng.choice(toml)))
+            elif r < 0.8:
+                ops.append(W(rng.choice(dirs) + rng.choice(other)))
+            elif r < 0.86:
+                ops.append({"op": "resume" if paused else "pause"})
+                paused = not paused
+            elif r < 0.9:
+                ops.append({"op": "sleep"})
+            elif r < 0.93:
+                ops.append({"op": "cancel"})
+            else:
+                ops.append(W(rng.choice(dirs) + "nested/" + rng.choice(toml)))
+        add(ops)
+    return scs
+
+
+def c19(pid, tier, replay):
+    scr = vlib.Scratch(pid)
+    out = casecheck.CaseOutcome(pid, tier, ["C19_"])
+    cfg = ("SPECIFICATION Spec\nCONSTANTS\n  Files <- MCFiles\n  NWrites = %d\nINVARIANTS NoneForOthers NoNotificationAfterClose\n"
+           "PROPERTIES Notified StreamEnds\nCHECK_DEADLOCK FALSE\n" % (4 if tier == "quick" else 6))
+    res = vlib.run_tlc(scr, "MC_watcher", cfg, workers=4, timeout=900)
+    if not res.completed:
+        raise Infra("Watcher.tla does not satisfy its properties:\n" + res.tail(40))
+    out.states += res.distinct
+    out.transitions += res.generated
+    out.notes.append("Watcher.tla (kernel queue with coalescing, filter, unbuffered hand-off, prompt/late consumer, cancel anywhere): "
+                     "%d distinct states, safety and liveness hold" % res.distinct)
+    h = scr.build()
+    if replay:
+        with open(replay) as f:
+            rp = json.load(f)
+        scs = [{"id": 1, "ops": [{"op": "write", "file": w} for w in rp["case"].get("writes", []) if "zz_barrier" not in w]}]
+    else:
+        scs = watcher_scenarios(vlib.seed(), tier)
+    sp = scr.fresh("watch") + ".json"
+    with open(sp, "w") as f:
+        json.dump(scs, f)
+    t = scr.fresh("watcher") + ".ndjson"
+    run_cmd([h, "watcher", sp, scr.path("watch-trees"), t], timeout=3000)
+    out.add(t, vlib.validate_trace(scr, "WatcherHistTrace", t), sample_filter=lambda d: 2 < len(d.get("writes", [])) < 9)
+    out.notes.append("%d scenarios: isolated writes and bursts on TOML and non-TOML files in the four directories (one write(2) on an "
+                     "O_APPEND descriptor = one inotify event), consumer prompt or paused, cancellation at arbitrary points, files in "
+                     "nested directories (unconstrained)" % len(scs))
+    return out.finish(level="exploration",
+                      rule="one case = one run of the real DetectDeviceConfigChanges; notification counts up to two barrier writes and the "
+                           "end of the stream after cancellation judged by WatcherHist!Judge",
+                      assumptions=["inotify delivers events of one instance in order; identical consecutive unread events may be merged",
+                                   "a notification that should not exist is looked for during 150 ms after the barriers; a missing one "
+                                   "and a stream that does not end are decided after 10 s"])
+
+
+REGISTRY["C19"] = c19
